@@ -1662,7 +1662,7 @@ package go9p
 //@   at call((*SrvReq).Process) requires [notflushed] flushed == false
 //@   ghost viaflush bool = false
 //@   at call((*SrvReq).Respond) after viaflush := true
-//@   ensures  [C07 saved] !viaflush ==> req.status & 2 == 0 && (req.status & 4 == 0 ==> req.status & 8 != 0)
+//@   ensures  [C07 C03 saved] !viaflush ==> req.status & 2 == 0 && (req.status & 4 == 0 ==> req.status & 8 != 0)
 //@   assigns  everything
 
 //@ pure unread(conn, buf, pos, rd) = forall k int :: 0 <= k && k < pos ==> buf[k] == instream(conn)[rd - pos + k]
@@ -1752,7 +1752,7 @@ package go9p
 
 //@ func (*SrvFid).DecRef(fid)
 //@   opt lockcheck
-//@   property C04 C06 C11 C19
+//@   property C04 C06 C11 C19 C08
 //@   requires fid != nil && nolocks() && fid.Fconn != nil && fid.Fconn.Srv != nil && fid.refcount > -9223372036854775807
 //@   ghost ndestroy int = 0
 //@   at call(SrvFidOps.FidDestroy) requires [last] arg1 == fid && old(fid.refcount) <= 1 && !inmap(fid.Fconn.fidpool, fid.fid) && ndestroy == 0
@@ -1852,7 +1852,7 @@ package go9p
 
 //@ func (*Conn).close(conn)
 //@   opt lockcheck
-//@   property C11 C06 C19
+//@   property C11 C06 C19 C04
 //@   requires conn != nil && conn.Srv != nil && nolocks() && poolok(conn)
 //@   ghost nclosed int = 0
 //@   at call(ConnOps.ConnClosed) requires [once] nclosed == 0 && arg1 == conn
@@ -1947,7 +1947,7 @@ package go9p
 //@ func (*Tag).reqAlloc(tag) (r)
 //@   property C09 C08
 //@   requires tag != nil && tag.clnt != nil
-//@   at call((*Clnt).ReqAlloc) requires [C09 ownpool] false
+//@   at call((*Clnt).ReqAlloc) requires [C09 C08 ownpool] false
 //@   ensures  [C09 C08 sharedtag] r != nil && fresh(r) && r.tag == tag.tag && r.Clnt == tag.clnt
 
 //@ func (*Tag).ReqFree(tag, r)
